@@ -99,7 +99,7 @@ def handshake_scenario(rng, rank):
         sc.close()
 
 
-def scenario(rng, rank, stalls=False):
+def scenario(rng, rank, stalls=False, flood=0):
     # the adversarial per-tick order is switched on after the handshake (under it the 27-segment
     # initial transfer rarely survives the Unhandled/Packet race, which is not C07's subject)
     sc = EngineScenario(rng, rank="stable" if rank == "seeded" else rank, on_event=_suspending_handler)
@@ -111,6 +111,17 @@ def scenario(rng, rank, stalls=False):
         if stalls:
             sc.stalls(env.rng(f"c07-stall-{rng.random()}"), p=0.04)
         items = junk_items(rng, sc.spa)
+        # every datagram the network hands to the connection's endpoint is counted independently of the queue
+        delivered = [0]
+        prev_on = s.net.on_event
+
+        def on_ev(kind, data, transport):
+            if prev_on:
+                prev_on(kind, data, transport)
+            if kind == "deliver" and transport is sc.tr and not transport.closed:
+                delivered[0] += 1
+        s.net.on_event = on_ev
+        puts0 = sum(1 for e in sc.tap.log if e["k"] == "put" and e["by"] != "SPA:Packet handler")
         ncb = [0]
         for a in sc.spa.struct.accessors.values():
             a.watch(lambda *x: ncb.__setitem__(0, ncb[0] + 1))
@@ -138,6 +149,16 @@ def scenario(rng, rank, stalls=False):
                 after = (digest(s), ncb[0])
                 same = after[0][0] == before[0][0] and after[1] == before[1] and after[0][2] == before[0][2]
                 extra.append({"k": "inert", "same": bool(same), "t": ms(s.loop.time()), "_n": next(__import__("gv.vloop", fromlist=["SEQ"]).SEQ)})
+        if flood:
+            # a burst far beyond what the consumers drain per poll, with known traffic behind it: everything that
+            # was received still leaves the queue exactly once, nothing waits at the head for long
+            sid, cid = sc.spa.descriptor.identifier, sc.spa.client_id
+            for i in range(flood):
+                name, data = rng.choice(items)
+                s.inject(data, delay=0.0003 * i)
+            s.inject(frame(sid, cid, b"STATP\x01\x03\xf2\x00\x02"), delay=0.0003 * flood + 0.001)
+            s.inject(frame(sid, cid, b"RFERR"), delay=0.0003 * flood + 0.002)
+            s.advance(flood * 0.32 + 8.0)
         # final phase: RF errors (they take the connection out of CONNECTED) followed by more traffic
         if rng.random() < 0.5:
             sid, cid = sc.spa.descriptor.identifier, sc.spa.client_id
@@ -148,7 +169,8 @@ def scenario(rng, rank, stalls=False):
         s.advance(1.0)
         sc.ev.extend(extra)
         ev = merge(sc)
-        return {"ev": ev, "rank": rank, "n": len(ev)}
+        puts = sum(1 for e in sc.tap.log if e["k"] == "put" and e["by"] != "SPA:Packet handler") - puts0
+        return {"ev": ev, "rank": rank, "n": len(ev), "delivered": delivered[0], "puts": puts, "flood": flood}
     finally:
         for t in sc.tasks:
             if not t.done():
@@ -215,7 +237,13 @@ def run(ctx):
     n = 16 if ctx.quick else 300
     for i in range(n):
         # every third scenario runs on an event loop that occasionally stalls (logged, see TStall)
-        logs.append(scenario(rng, ["stable", "perm", "reverse", "seeded"][i % 4], stalls=(i % 3 == 2)))
+        logs.append(scenario(rng, ["stable", "perm", "reverse", "seeded"][i % 4], stalls=(i % 3 == 2),
+                             flood=(rng.choice([70, 100]) if i % 8 == 4 else 0)))
+    for lg in logs:
+        if lg["delivered"] != lg["puts"]:
+            ctx.violation({"clause": "received-datagram-never-entered-the-queue"},
+                          {"rank": lg["rank"], "delivered_to_endpoint": lg["delivered"], "entered_the_queue": lg["puts"], "flood": lg["flood"]})
+    ev.cov["flood_scenarios"] = sum(1 for lg in logs if lg["flood"])
     # junk during the handshake, under the stable wake orders (the adversarial per-tick order is not used
     # before the connection exists, see above)
     for i in range(6 if ctx.quick else 80):
